@@ -39,6 +39,7 @@ class PyDB:
         self.files = {}     # relpath -> ast.Module
         self.classes = {}   # class name -> PyClass
         self.module_assigns = {}  # (relpath, name) -> value node
+        self.alias_exprs = {}     # NAME -> the CFUNCTYPE(...) / POINTER(...) call it stands for
         self.alias_types = {}     # module-level names bound to ctypes types / subclasses (e.g. allocated_c_char_p)
         paths = sorted(glob.glob(os.path.join(REPO, 'rebound', '*.py')) +
                        glob.glob(os.path.join(REPO, 'rebound', 'integrators', '*.py')))
@@ -93,6 +94,10 @@ class PyDB:
                     base = [_name(b) for b in st.bases if _name(b) in PRIM][0]
                     self.alias_types[st.name] = PRIM[base]
             elif isinstance(st, ast.Assign):
+                # NAME = CFUNCTYPE(...) / POINTER(...): a module-level name for a pointer-sized ctypes type
+                if len(st.targets) == 1 and isinstance(st.targets[0], ast.Name) and isinstance(st.value, ast.Call) and _name(st.value.func) in ('CFUNCTYPE', 'POINTER'):
+                    self.alias_types[st.targets[0].id] = (8, 8, 'fptr/%d' % (len(st.value.args) - 1)) if _name(st.value.func) == 'CFUNCTYPE' else (8, 8, 'ptr')
+                    self.alias_exprs[st.targets[0].id] = st.value
                 for t in st.targets:
                     if isinstance(t, ast.Attribute) and t.attr == '_fields_' and isinstance(t.value, ast.Name):
                         cn = t.value.id
